@@ -319,9 +319,16 @@ func (g *seqGen) memoHunt(rounds int) {
 			{Fn: "val", L: int64(-3 - k), S: hxs("legal winner thank year wave sausage worth useful legal winner thank yellow")},
 			{Fn: "enc", L: int64(-3 - k), E: hx(ent)},
 			{Fn: "val", L: int64(-3 - k), S: hxs("legal winner thank year wave sausage worth useful legal winner thank yellow")},
+			{Fn: "str", L: int64(70 + k)},
+			{Fn: "str", L: int64(-3 - k)},
 			{Fn: "str", L: int64(1000 + k)},
 			{Fn: "str", L: int64(1000 + k + 64)},
 			{Fn: "str", L: int64(l)},
+			// a randomness source that fails after delivering some bytes, then successes
+			{Fn: "new", L: int64(l), N: int64(len(w)), Src: &plan.Src{Data: hx(ent), Steps: []plan.Step{{N: 1 + k%7}, {N: 0, E: "custom"}}}},
+			{Fn: "enc", L: int64(l), E: hx(ent), Keep: true},
+			{Fn: "chk", L: int64(l), S: hxs(s)},
+			{Fn: "new", L: int64(l2), N: 24, Src: &plan.Src{Data: hx(ent[:5])}},
 			{Fn: "new", L: int64(l), N: int64(len(w)), Src: &plan.Src{Data: hx(ent)}, Keep: true},
 			{Fn: "new", L: int64(l2), N: int64(len(w)), Src: &plan.Src{Data: hx(ent)}, Keep: true},
 		} {
